@@ -89,6 +89,7 @@ func (e *Engine) verifyFunc(ct *Contract) (res *FuncVC) {
 	c := newCtx(e, e.modeOf(ct), key)
 	res.Ctx = c
 	c.rte = ct.RTE
+	c.coverCalls = !ct.NoCover
 	lib := e.specLib(c.mode)
 	_ = lib
 	fr := c.newFrame(fn, 0)
@@ -98,10 +99,8 @@ func (e *Engine) verifyFunc(ct *Contract) (res *FuncVC) {
 	st.alloc = c.decl("alloc0", "Int")
 	c.assume("true", fmt.Sprintf("(>= %s 1)", st.alloc))
 	c.epochAlloc[st.epoch] = st.alloc
-	if contractUsesGhost(ct) {
-		st.ghost["cpu"] = "0"
-		st.ghost["mem"] = "0"
-	}
+	st.ghost["cpu"] = "0"
+	st.ghost["mem"] = "0"
 	var args []Val
 	for _, p := range fn.Params {
 		srt := c.sorts.sortOf(p.Type())
